@@ -2,7 +2,8 @@
    window; lookup by id finds it exactly when it is on that head's chain, whichever path is taken."
    Histories as in C14.v (every sequence of AddBlock calls the node can make, any tree, any best choices). *)
 From Coq Require Import List NArith Bool Lia.
-From Verif Require Import Chain.Model Chain.Proofs Chain.ProofsWalk Chain.ProofsSys Chain.ProofsTx Chain.ProofsAccept Chain.Examples.
+From Verif Require Import Chain.Model Chain.Proofs Chain.ProofsWalk Chain.ProofsSys Chain.ProofsTx Chain.ProofsAccept
+  Chain.ProofsChainInv Chain.Examples.
 Import ListNotations.
 Open Scope N_scope.
 
@@ -73,23 +74,31 @@ Section C09.
   Qed.
 End C09.
 
-(* The full first sentence of C09, NOT yet proved (kept as a statement): on every history all of whose blocks passed
-   `validate`, and in which a tx id determines the tx body (hash collision freedom), every stored chain carries each
-   id at most once, every tx has the tag and sits in its window, and its dependency occurs earlier on that chain and
-   did not revert.  Missing: the induction over the chain that combines accepted_block_step_partial with
-   get_tx_meta_on_chain for the dependency clause. *)
+(* 6. C09 first sentence, chain level (at most once / chain tag / validity window): on every history all of whose
+      blocks passed the body and verify rules (`validate`), where an id determines the tx body (U: the transactions
+      that exist; hash collision freedom is the named premise), every chain the node stores — seen from any head —
+      carries every tx id at most once (neither twice in one block nor in two blocks), and every included tx has the
+      chain tag and sits at a height inside [ref, ref + expiration]. *)
+Theorem accepted_chain_inv g gp tag (U : txrec -> Prop) :
+  (forall t1 t2, U t1 -> U t2 -> tx_id t1 = tx_id t2 -> t1 = t2) -> num_of g = 0 -> num_of gp = max_u32 ->
+  forall r, reachable g gp tag (accepted U) r -> forall h, stored r h ->
+    (forall a t, anc r h a -> tx_in r a t -> U t /\ tx_tag t = tag /\ tx_ref t <= num_of a /\ num_of a <= tx_ref t + tx_exp t) /\
+    (forall a1 t1 a2 t2, anc r h a1 -> anc r h a2 -> tx_in r a1 t1 -> tx_in r a2 t2 -> tx_id t1 = tx_id t2 -> a1 = a2) /\
+    (forall a s b, anc r h a -> get_block r a = Some (s, b) -> NoDup (map tx_id (b_txs b))).
+Proof. intros Uinj Hg Hgp r R h Sh. exact (accepted_chain_ok g gp tag U Uinj Hg Hgp r R h Sh). Qed.
+
+(* The dependency clause of the first sentence is NOT yet proved at chain level (kept as a statement): the
+   dependency of every included tx occurs earlier on the same chain and did not revert.  The rule is in the model
+   (verify_loop: found through `processed` or GetTransactionMeta on the parent's chain, and not reverted) and
+   get_tx_meta_on_chain says what a found meta denotes; missing is the induction that combines them. *)
 Definition tx_at (r : repo) (a : N) (i : nat) (t : txrec) (rc : receipt) : Prop :=
   exists s b, get_block r a = Some (s, b) /\ nth_error (b_txs b) i = Some t /\ nth_error (b_rcs b) i = Some rc.
-Definition accepted_chain_inv_statement : Prop :=
+Definition accepted_chain_dependency_statement : Prop :=
   forall (g gp tag : N) (U : txrec -> Prop),
     num_of g = 0 -> num_of gp = max_u32 ->
     (forall t1 t2, U t1 -> U t2 -> tx_id t1 = tx_id t2 -> t1 = t2) ->
-    forall r, reachable g gp tag (fun r b _ => validate r b = V_ok /\ forall t, In t (b_txs b) -> U t) r ->
+    forall r, reachable g gp tag (accepted U) r ->
     forall h, stored r h ->
-      (forall a1 i1 t1 rc1 a2 i2 t2 rc2, anc r h a1 -> anc r h a2 -> tx_at r a1 i1 t1 rc1 -> tx_at r a2 i2 t2 rc2 ->
-         tx_id t1 = tx_id t2 -> a1 = a2 /\ i1 = i2) /\
-      (forall a i t rc, anc r h a -> tx_at r a i t rc ->
-         tx_tag t = tag /\ tx_ref t <= num_of a /\ num_of a <= tx_ref t + tx_exp t) /\
       (forall a i t rc d, anc r h a -> tx_at r a i t rc -> tx_dep t = Some d ->
          exists a' i' t' rc', anc r h a' /\ tx_at r a' i' t' rc' /\ tx_id t' = d /\ rc_rev rc' = false /\
                               (num_of a' < num_of a \/ (a' = a /\ (i' < i)%nat))).
@@ -108,8 +117,21 @@ Example ex_c09 :
   validate ex_r4 (mkB (bid 4 1) (bid 3 1) 40 [mkTx 1003 7 0 9 (Some 1002) 50] [ex_rc false]) = V_deprev.
 Proof. split; [apply ex_reachable; exact I|]. vm_compute. repeat split. Qed.
 
+(* non-vacuity of accepted_chain_inv: the example history passes `validate` at every step, with a two-element universe *)
+Definition ex_U (t : txrec) : Prop := t = ex_t1 \/ t = ex_t2.
+Example ex_c09_accepted :
+  (forall t1 t2, ex_U t1 -> ex_U t2 -> tx_id t1 = tx_id t2 -> t1 = t2) /\
+  reachable ex_g ex_gp ex_tag (accepted ex_U) ex_r4.
+Proof.
+  split.
+  - intros t1 t2 H1 H2. destruct H1 as [H1|H1]; destruct H2 as [H2|H2]; subst t1 t2; cbn; intros E;
+      try reflexivity; discriminate.
+  - apply ex_reachable; (split; [vm_compute; reflexivity | cbn; unfold ex_U; intros t H; intuition]).
+Qed.
+
 Print Assumptions conflicts_identify.
 Print Assumptions has_transaction_paths.
 Print Assumptions has_tx_paths_agree.
 Print Assumptions get_tx_meta_on_chain.
 Print Assumptions accepted_block_step_partial.
+Print Assumptions accepted_chain_inv.
